@@ -40,8 +40,25 @@ PROPS = {
             ('k_peg', 'peg_seq2_atomic', 'bounded', 'q', '@{a ~ b}; symbolic input <=4 chars; unwind 6'),
             ('k_peg', 'peg_rep_1_2_skip', 'bounded', 'q', 'a{1,2} with skip; symbolic input <=5 chars; unwind 7'),
         ],
+        'native': [
+            ('derive:nb_gen', 'nb_gen_vs_pest', 'generated parser vs pest: 18 rules (all kinds/operators) x all strings<=5 chars over 3 alphabets', 'q'),
+        ],
         'assumptions': ['sem (PEG denotation with full backtracking, failing empty-stack operations) is pest\'s behaviour where pest is defined',
                         'generator translation of the grammar into the combinator type tree is not verified (DESIGN.md §6)'],
+    },
+    'C02': {
+        'level': 'other',
+        'level_text': 'Bounded stand-in only. The pair-tree code (for_self_or_each_child, children, as_token) is callback style (FnMut closures pushing into captured Vecs), which Verus does not support, and CBMC on Vec-of-Vec token trees is intractable; no contract is discharged. The contract "as_thin_token() equals the pest tree minus descendants of atomic/compound-atomic tokens" is checked by bounded differential enumeration against pest itself on a generated parser covering every rule kind and operator.',
+        'level_note': 'pest (pest_derive 2.7.14) on the same grammar is the oracle, as the property states. One grammar of 22 rules; nothing beyond the bound or other grammars.',
+        'technique': 'contract (tree equals pest tree minus documented pruning) checked by bounded differential enumeration on generated parsers; no deductive proof within reach (FnMut callback style)',
+        'verus': [],
+        'expanded': False,
+        'kani': [],
+        'native': [
+            ('derive:nb_gen', 'nb_gen_vs_pest', 'generated parser vs pest: 18 rules (all kinds/operators) x all strings<=5 chars over 3 alphabets', 'q'),
+        ],
+        'explanation': 'Every (rule, input) pair within the bound is parsed by the pest-generated and the pest-typed-generated parser; trees are compared after pruning atomic tokens in the pest tree. obligations/discharged are zero: nothing is proved beyond the bound.',
+        'assumptions': ['pest is the reference'],
     },
     'C03': {
         'level': 'proof',
@@ -55,6 +72,9 @@ PROPS = {
             ('k_peg', 'peg_seq2_atomic', 'bounded', 'q', '@{a ~ b}; symbolic input <=4 chars; unwind 6'),
             ('k_peg', 'peg_rep_1_2_skip', 'bounded', 'q', 'a{1,2} with skip; symbolic input <=5 chars; unwind 7'),
         ],
+        'native': [
+            ('derive:nb_gen', 'nb_gen_vs_pest', 'generated parser vs pest: 18 rules (all kinds/operators) x all strings<=5 chars over 3 alphabets', 'q'),
+        ],
         'assumptions': ['R1 (tracker erasure) is behaviour-preserving for match/offset/stack results'],
     },
     'C04': {
@@ -65,6 +85,9 @@ PROPS = {
         'verus': ['wrappers'],
         'expanded': False,
         'kani': [],
+        'native': [
+            ('derive:nb_gen', 'nb_gen_vs_pest', 'generated parser vs pest: 18 rules (all kinds/operators) x all strings<=5 chars over 3 alphabets', 'q'),
+        ],
         'assumptions': [],
     },
     'C05': {
@@ -117,6 +140,9 @@ PROPS = {
             ('k_peg', 'peg_seq2_atomic', 'bounded', 'q', '@{a ~ b}; symbolic input <=4 chars; unwind 6'),
             ('k_peg', 'peg_rep_1_2_skip', 'bounded', 'q', 'a{1,2} with skip; symbolic input <=5 chars; unwind 7'),
         ],
+        'native': [
+            ('derive:nb_gen', 'nb_gen_vs_pest', 'generated parser vs pest: 18 rules (all kinds/operators) x all strings<=5 chars over 3 alphabets', 'q'),
+        ],
         'assumptions': ['which of 0 / 1 / INHERITED reaches each rule reference is decided by generator code outside the verified set'],
     },
     'C08': {
@@ -128,6 +154,7 @@ PROPS = {
         'expanded': False,
         'kani': [],
         'native': [
+            ('derive:nb_gen', 'nb_gen_subinput', 'generated parser: 7 rules x all strings<=4 chars over 2 alphabets x all sub-ranges (Span/Position vs fresh copy)', 'q'),
             ('nb_input', 'nb_skip_until_contract', 'all strings<=4 chars over {a,*,/,é,€,😀} x all spans x 3 cursors x 5 needle sets', 'q'),
             ('nb_input', 'nb_skip_contract', 'all strings<=4 chars x all spans x n<6', 'q'),
             ('nb_input', 'nb_shims', 'std shims + UTF-8 lemmas on all strings<=3 chars', 'q'),
@@ -144,6 +171,8 @@ PROPS = {
         'expanded': False,
         'kani': [],
         'native': [
+            ('derive:nb_gen', 'nb_gen_subinput', 'generated parser: 7 rules x all strings<=4 chars over 2 alphabets x all sub-ranges (Span/Position vs fresh copy)', 'q'),
+            ('derive:nb_gen', 'nb_gen_vs_pest', 'generated parser vs pest: 18 rules (all kinds/operators) x all strings<=5 chars over 3 alphabets', 'q'),
             ('nb_input', 'nb_skip_contract', 'all strings<=4 chars x all spans x n<6', 'q'),
             ('nb_input', 'nb_shims', 'std shims + UTF-8 lemmas on all strings<=3 chars', 'q'),
         ],
@@ -177,6 +206,20 @@ PROPS = {
             ('nb_span', 'nb_span', 'all strings<=6 chars over {LF,CR,a,é,€} x all index pairs / spans / sub-ranges / span pairs', 't', {'VERIF_NB_L': '6'}),
         ],
         'assumptions': ['pest::Span (2.7.14) is the reference for the bounded part'],
+    },
+    'C15': {
+        'level': 'other',
+        'level_text': 'Bounded stand-in only (VecDeque / FnMut callback code is outside Verus; token trees are too heavy for CBMC): on every successful parse of 13 content-carrying rules of a generated parser, for all inputs up to 5 characters, pre-order iteration equals the recursive definition with depths, level-order visits every token once level by level, format_as_tree renders the pre-order with four spaces per level and text on leaves, children() are the direct child tokens, spans are nested and ordered.',
+        'level_note': 'One grammar; bounded inputs; nothing proved.',
+        'technique': 'traversal contracts checked by bounded enumeration on real parse results; no deductive proof within reach (VecDeque, FnMut callbacks)',
+        'verus': [],
+        'expanded': False,
+        'kani': [],
+        'native': [
+            ('derive:nb_gen', 'nb_gen_vs_pest', 'generated parser vs pest: 18 rules (all kinds/operators) x all strings<=5 chars over 3 alphabets', 'q'),
+        ],
+        'explanation': 'The traversal helpers are run on the real tree of every accepted (rule, input) pair within the bound and compared with a recursive reference traversal written in the test.',
+        'assumptions': [],
     },
     'C17': {
         'level': 'proof',
@@ -281,5 +324,5 @@ NOT_APPLICABLE = {
     'C16': 'getter code is assembled as TokenStreams by the generator (graph.rs); property is about behaviour of emitted accessors for every grammar — no contract over quote! output is expressible; would be translation validation, a different family (DESIGN.md §6)',
     'C20': 'relation between separate generator runs / separately compiled option combinations; outside any single-function contract (DESIGN.md §6)',
 }
-for _p in ['C02', 'C10', 'C14', 'C15']:
+for _p in ['C10', 'C14']:
     NOT_APPLICABLE.setdefault(_p, 'not built yet in this session (planned in DESIGN.md §5); not claimed until its check exists')
